@@ -309,7 +309,9 @@ private:
                 const RealScalar sigma = find_sigma(k, r, p);
 
                 // If sigma * |A[k, k]| >= alpha * lambda^2, no need to interchange
-                if (sigma * abs_akk < alpha * lambda * lambda)
+                // (written with the quotient lambda / sigma <= 1 as in LAPACK: the products on both
+                // sides underflow for entries below the square root of the smallest number)
+                if (abs_akk < alpha * lambda * (lambda / sigma))
                 {
                     // If |A[r, r]| >= alpha * sigma, use A[r, r] as a 1x1 pivot
                     if (abs(diag_coeff(r)) >= alpha * sigma)
@@ -497,7 +499,14 @@ private:
         e22 = ScalarOp<Scalar>::real(e22);
         Scalar e12 = ScalarOp<Scalar>::conj(e21);
         // Return CompInfo::NumericalIssue if not invertible
-        if (e11 * e22 - e12 * e21 == Scalar(0))
+        // The determinant is formed on the block divided by its largest magnitude:
+        // the products of tiny entries would underflow to zero
+        using std::abs;
+        const RealScalar emax = (std::max)((std::max)(abs(e11), abs(e22)), abs(e21));
+        if (emax == RealScalar(0))
+            return CompInfo::NumericalIssue;
+        const RealScalar einv = RealScalar(1) / emax;
+        if ((e11 * einv) * (e22 * einv) - (e12 * einv) * (e21 * einv) == Scalar(0))
             return CompInfo::NumericalIssue;
 
         // [inverse]
